@@ -43,7 +43,7 @@ def gen_end(rng, start):
     if r == 0:
         return None
     if r == 1:
-        return ("duration", rng.choice((("td", 86400), ("td", 172800)) if start[0] == "d" else (("td", 3600), ("td", 86400), ("td", 5400), ("td", 0))))
+        return ("duration", rng.choice((("td", 86400), ("td", 172800), ("td", 0), ("td", 604800)) if start[0] == "d" else (("td", 3600), ("td", 86400), ("td", 5400), ("td", 0))))
     # explicit end of the same kind as the start, later
     if start[0] == "d":
         return ("end", ("d", start[1], start[2] + 0, start[3]) if False else ("d", 2024, 4, 2))
